@@ -42,7 +42,7 @@ pub struct Req {
     pub path: String,
     pub auth: Auth,
     pub content_type: Option<&'static str>,
-    pub body: Vec<u8>,
+    pub body: bytes::Bytes,
 }
 
 impl Req {
@@ -294,7 +294,7 @@ pub fn rpc(path: &str, auth: Auth, enc: Enc, method: &str, params: Value) -> Req
         path: path.to_string(),
         auth,
         content_type: Some(enc.content_type()),
-        body: enc.encode(&body),
+        body: enc.encode(&body).into(),
     }
 }
 
@@ -340,12 +340,15 @@ pub fn marker(db: &str) -> String {
 
 impl World {
     /// Seeds a freshly created database: one collection with two indexes, two
-    /// documents, one database extension, one collection extension; flushed.
+    /// (A) or three (others) documents, one database extension, one collection extension; flushed.
     pub async fn seed(&mut self, db: &str) -> Result<(), String> {
         let path = format!("/{db}");
         let m = marker(db);
         self.admin_rpc(&path, "collection.create", collection_params(&m)).await?;
-        for (i, word) in ["first", "second"].iter().enumerate() {
+        // the databases differ in content AND in document count, so that an
+        // answer computed from the wrong database is visible even in a count
+        let words: &[&str] = if db == DB_A { &["first", "second"] } else { &["first", "second", "third"] };
+        for (i, word) in words.iter().enumerate() {
             self.admin_rpc(
                 &path,
                 "doc.add",
